@@ -118,8 +118,88 @@ def run(tier, t0):
         revs = [b for b, t in fs.calls() if fs.callee(t).endswith('slice::reverse') and 'inlines' in show(fs.expand(fs.operand_tree(t['args'][0])))]
         if not syms or not revs or not all(fs.dominates(s, r) for s in syms for r in revs) or not all(fs.postdominates(r, s) for s in syms for r in revs):
             res.violation('C11.4', 'C11.4|reverse', fs, fs.line, 'frame.inlines.reverse() does not follow the fill_symbol call on every path')
+    # C11.5 a covering record that exists is reported: "absent" outcomes only after the source was consulted and empty
+    res.rule('C11.5', 0, floor=8, note='found => reported: the not-found outcome of a lookup is reached only with that lookup consulted and empty; reporting calls post-dominate the found edges')
+    g = need_fn(res, c, SF + 'types::Function::get_outermost_sourceloc', 'C11.5')
+    if g is not None:
+        ex = PathExplorer(g, keep=lambda cnd: True)
+        ex.run()
+        INL = '(discr (breakpad_symbols::sym_file::types::Function::get_inlinee_at_depth self 0 addr))'
+        LIN = 'range_map::RangeMap::get self.lines addr'
+        for (b, i, tr) in ret_assigns(g):
+            e = g.expand(tr)
+            res.rule('C11.5', 1)
+            states = [dict((show(cc), v) for cc, v in facts) for facts, env in ex.states.get(b, ())]
+            if not states:
+                res.error('C11.5', 'no path state at a return of get_outermost_sourceloc')
+            is_some = e[0] == 'adt' and e[1].endswith('Option::Some')
+            with_origin = is_some and 'Option::Some' in show(e[2][4]) if is_some and e[2][0] == 'tuple' and len(e[2]) == 5 else False
+            for st in states:
+                inl = st.get(INL)
+                lin = [v for k, v in st.items() if LIN in k]
+                if with_origin:
+                    if inl != 1:
+                        res.violation('C11.5', 'C11.5|sourceloc|inline-return', g, g.line, 'the inline call site is returned on a path where the depth-0 inlinee lookup did not succeed')
+                    if lin:
+                        res.violation('C11.5', 'C11.5|sourceloc|inline-needs-line', g, g.line, 'the depth-0 inlinee is only reported after the line lookup was consulted: an address covered by an INLINE range but by no line record loses its inline frames')
+                elif is_some:
+                    if inl is None or inl == 1:
+                        res.violation('C11.5', 'C11.5|sourceloc|line-return', g, g.line, 'the plain line record is returned without the depth-0 inlinee lookup having come back empty')
+                else:
+                    if inl is None or inl == 1:
+                        res.violation('C11.5', 'C11.5|sourceloc|none-early', g, g.line, 'get_outermost_sourceloc can give up (None) before the depth-0 inlinee lookup was consulted and found empty')
+                    if not lin:
+                        res.violation('C11.5', 'C11.5|sourceloc|none-without-lines', g, g.line, 'get_outermost_sourceloc gives up (None) without consulting the line records')
+    f = c.fn(SF + '<impl sym_file::types::SymbolFile>::fill_symbol')
+    if f is not None:
+        def calls_of(pred):
+            return [(b, t) for b, t in f.calls() if pred(f.callee(t) or '', f.callee_decl(t) or '', t)]
+        # the FUNC lookup and its found edge
+        fl = [(b, t) for b, t in f.calls() if (f.callee(t) or '').endswith('RangeMap::get') and show(f.expand(f.operand_tree(t['args'][0]))).endswith('self.functions')]
+        setf = calls_of(lambda n, d, t: d.endswith('FrameSymbolizer::set_function'))
+        outer = calls_of(lambda n, d, t: n.endswith('Function::get_outermost_sourceloc'))
+        pub = calls_of(lambda n, d, t: n.endswith('find_nearest_public'))
+        res.rule('C11.5', 1)
+        if len(fl) != 1:
+            res.error('C11.5', 'expected one self.functions.get(addr) in fill_symbol, found %d' % len(fl))
+        else:
+            fb, ft = fl[0]
+            # the switch on its discriminant
+            sw = None
+            for b in sorted(f.reach):
+                t = f.blocks[b]['t']
+                if t['k'] == 'switch' and f.dominates(fb, b) and show(f.expand(f.operand_tree(t['x']))).startswith('(discr (range_map::RangeMap::get') and 'self.functions' in show(f.expand(f.operand_tree(t['x']))):
+                    sw = (b, t)
+                    break
+            if sw is None:
+                res.error('C11.5', 'no switch on the FUNC lookup in fill_symbol')
+            else:
+                some_t = [tgt for v, tgt in sw[1]['ts'] if v == 1]
+                none_t = sw[1]['o'] if some_t else None
+                in_func = [b for b, t in setf if some_t and (b == some_t[0] or b in f.reachable_from(some_t[0], avoid=(sw[0],)))]
+                res.rule('C11.5', 2)
+                if not some_t or not in_func or not all(f.postdominates(b, some_t[0]) for b in in_func[:1]):
+                    res.violation('C11.5', 'C11.5|fill|function', f, ft.get('line'), 'a FUNC record found at addr does not reach set_function on every path')
+                o_in = [b for b, t in outer if some_t and b in f.reachable_from(some_t[0], avoid=(sw[0],))]
+                if not o_in or not all(f.postdominates(b, some_t[0]) for b in o_in[:1]):
+                    res.violation('C11.5', 'C11.5|fill|sourceloc', f, ft.get('line'), 'with a FUNC record found, get_outermost_sourceloc(addr) is not consulted on every path')
+                res.rule('C11.5', 1)
+                p_in = [b for b, t in pub if none_t is not None and (b == none_t or b in f.reachable_from(none_t, avoid=(sw[0],)))]
+                if not p_in or not all(f.postdominates(b, none_t) for b in p_in[:1]):
+                    res.violation('C11.5', 'C11.5|fill|public', f, ft.get('line'), 'without a FUNC record the PUBLIC fallback is not consulted on every path')
+                # set_source_file post-dominates the found edge of files.get under a found source location
+                for b, t in calls_of(lambda n, d, t: d.endswith('FrameSymbolizer::set_source_file')):
+                    res.rule('C11.5', 1)
+                    facts = [r for r, gd, sc in panics.dominating_facts(f, b)]
+                    conds = ' ; '.join(' '.join(show(x) if isinstance(x, tuple) else str(x) for x in r) for r in facts)
+                    extra = [r for r in facts if r[0] not in ('switch',) ]
+                    needed = 'get_outermost_sourceloc' in conds and 'self.files' in conds
+                    other = [r for r in facts if r[0] == 'switch' and not any(k in show(r[1]) for k in ('get_outermost_sourceloc', 'self.files', 'self.functions'))]
+                    other += [r for r in facts if r[0] != 'switch' and not ('base_address' in ' '.join(show(x) if isinstance(x, tuple) else str(x) for x in r))]
+                    if not needed or other:
+                        res.violation('C11.5', 'C11.5|fill|source-file', f, t.get('line'), 'set_source_file is guarded by more than "source location found and its file id known": %s' % conds[:300])
     res.assumptions += ['slice::binary_search_by_key and RangeMap::get are correct on sorted / non-overlapping data (std, range-map)',
                         'that the right record is found for every record set is a property of the searches over data, not decided here']
-    return harness.finish(res, tier, t0, distinct=5, explanation=(
+    return harness.finish(res, tier, t0, distinct=6, explanation=(
         'Narrow structural claim: the three searches of symbolication run on data sorted by the very key they search (sort dominates the store; field order of the derived Ord), the inlinee candidate is re-checked for depth and coverage, '
         'the module base is never subtracted from a smaller address, reported bases are the looked-up record\'s address plus the module base, the PUBLIC fallback is a reverse scan for address <= addr, and inline frames are reversed exactly once after symbolication.'))
